@@ -41,6 +41,7 @@ func runC13(c *Ctx) {
 	c13UntrustedNames(c)
 	c13DiskJoin(c)
 	c13ValidatorCovers(c)
+	c13ConstructorValidates(c)
 }
 
 // ---- (1) R-ABSVALID ------------------------------------------------------------------------------
@@ -478,6 +479,11 @@ func c13TaintConfig(p *Prog) *TaintConfig {
 				}
 				if namedPath(recv) == modPath+"/private/pkg/storage.Mapper" {
 					return "passed to Mapper." + callee.Name() + " before validation"
+				}
+				// a filter decides on the normalised spelling: the raw spelling of a hidden object ("./a/x") must not
+				// be what the matcher sees (round 3: the sanitizer's result was discarded in filter Get/Stat)
+				if namedPath(recv) == modPath+"/private/pkg/storage.Matcher" {
+					return "passed to Matcher." + callee.Name() + " before validation"
 				}
 				return ""
 			}
